@@ -3,15 +3,17 @@
    Fix/Session.v of asyncfix/connection.py (send_msg, _process_message, _validate_integrity,
    disconnect, _process_logon, _process_logout).
 
-   Known-finding classes (the `_partial` theorem excludes exactly these steps):
-     D15_step  an inbound message other than Logon that passes the integrity check arrives in
-               LOGON_INITIAL_SENT (the initiator has sent its Logon, no reply yet)
-     D25_step  the same in LOGON_INITIAL_RECV, where an acceptor stays when its Logon handling raised
-     (D27 - a non-numeric MsgSeqNum raised ValueError out of _process_message - is repaired in the code:
+   No theorem of this file excludes a known-finding class any more:
+     D15 (inbound traffic accepted in LOGON_INITIAL_SENT) and D25 (the same, and outbound traffic, in
+     LOGON_INITIAL_RECV, where an acceptor stays when its Logon handling raised) are repaired in the code
+     (R8b, R8c): C11_no_app_before_logon holds over ALL histories, C11_logon_exchange_gate gives the exact
+     result, the former witnesses are C11_*_dropped.
+     (D27 - a non-numeric MsgSeqNum raised ValueError out of _process_message - was repaired earlier:
       C11_garbled_seqnum_rejected)
    C11_integrity_* assume `sendable w`: the Logout can be written and journaled (writer present, no outbound
    journal row numbered next_num_out, number within SQLite's range); ledger D20 breaks that
-   (Out_inv of C05 implies it; D12 is repaired in the code). *)
+   (Out_inv of C05 implies it): since R8a the Logout is then not even written (journal first), send_msg
+   raises inside disconnect and the connection stays up - harness class D20-app-raw-seqnum. *)
 From Coq Require Import ZArith NArith List Bool.
 From AF Require Import Base.Sx Py.Str Fix.Session Lemmas.SessionL Lemmas.SessionC04L Lemmas.SessionC11L.
 From Coq Require String.
@@ -23,15 +25,28 @@ Example C11_enums_tied : enums_ok = true.
 Proof. exact enums_tied. Qed.
 Print Assumptions C11_enums_tied.
 
-(* from a pre-Logon state (disconnected, NETWORK_CONN_ESTABLISHED, LOGON_INITIAL_SENT / _RECV), for every
-   history of inbound messages, send attempts, timer calls and disconnects outside classes D15 / D25:
+(* from a pre-Logon state (disconnected, NETWORK_CONN_ESTABLISHED, LOGON_INITIAL_SENT / _RECV), for EVERY
+   history of inbound messages, send attempts, timer calls and disconnects:
    every on_message call is preceded by an on_logon call (the Logon exchange has completed) *)
-Theorem C11_no_app_before_logon_partial : forall c h w,
+Theorem C11_no_app_before_logon : forall c h w,
   prelogon w ->
-  Forall (fun s => ~ D15_step c s /\ ~ D25_step c s) (run c w h) ->
   forall pre m post, trace (run c w h) = pre ++ App m :: post -> logons pre <> [].
 Proof. exact run_no_app_before_logon. Qed.
-Print Assumptions C11_no_app_before_logon_partial.
+Print Assumptions C11_no_app_before_logon.
+
+(* ... and a connection that has left the pre-Logon states (ACTIVE, RESENDREQ_HANDLING, RESENDREQ_AWAITING)
+   has reported on_logon: no history makes it established without the peer's Logon *)
+Theorem C11_established_needs_logon : forall c h w,
+  prelogon w -> ~ prelogon (final c w h) -> logons (trace (run c w h)) <> [].
+Proof. exact run_established_needs_logon. Qed.
+Print Assumptions C11_established_needs_logon.
+
+(* one operation from a pre-Logon state delivers nothing and leaves the pre-Logon states only with on_logon *)
+Theorem C11_prelogon_step : forall c o w,
+  prelogon w ->
+  apps (re (step c o w)) = [] /\ (prelogon (rw (step c o w)) \/ logons (re (step c o w)) <> []).
+Proof. exact step_prelogon. Qed.
+Print Assumptions C11_prelogon_step.
 
 (* first inbound message is not a Logon (either role): the connection is dropped without any frame;
    counters, journal and role are untouched *)
@@ -41,9 +56,19 @@ Theorem C11_first_must_be_logon : forall c m now w,
 Proof. exact first_must_be_logon. Qed.
 Print Assumptions C11_first_must_be_logon.
 
-(* send gates: below NETWORK_CONN_ESTABLISHED; at NETWORK_CONN_ESTABLISHED unless Logon / Logout;
-   initiator in LOGON_INITIAL_SENT unless Logout -> FIXConnectionError, the world (counters, journal,
-   state, role) and the trace unchanged *)
+(* R8b: while the Logon exchange is in progress (LOGON_INITIAL_SENT: our Logon is out, no reply yet;
+   LOGON_INITIAL_RECV: the peer's Logon arrived, ours is not out) a message that passes the integrity check
+   and is neither Logon nor Logout drops the connection: no Logout, nothing counted, journaled or delivered *)
+Theorem C11_logon_exchange_gate : forall c m now w,
+  st w = ST_LOGON_SENT \/ st w = ST_LOGON_RECV -> validate_integrity c m w = VOk ->
+  mkind m <> KLogon -> mkind m <> KLogout ->
+  process_message c m now w = mkR (inl tt) (dropped ST_DISC_BROKEN w) [State ST_DISC_BROKEN; OnDisconnect].
+Proof. exact logon_exchange_gate. Qed.
+Print Assumptions C11_logon_exchange_gate.
+
+(* send gates (gate_refuses): below NETWORK_CONN_ESTABLISHED; at NETWORK_CONN_ESTABLISHED unless Logon / Logout;
+   initiator in LOGON_INITIAL_SENT unless Logout; (R8c) non-initiator in LOGON_INITIAL_RECV unless Logon / Logout
+   -> FIXConnectionError, the world (counters, journal, state, role) and the trace unchanged *)
 Theorem C11_send_gate : forall c m w,
   gate_refuses m w = true -> send_msg c m w = mkR (inr XConn) w [].
 Proof. exact send_gate_theorem. Qed.
@@ -146,24 +171,42 @@ Example C11_logout_always_processed :
 Proof. exact logout_always_processed. Qed.
 Print Assumptions C11_logout_always_processed.
 
-(* D15: initiator, Logon sent, no reply yet: an application message is handed to on_message *)
-Theorem C11_initiator_app_before_logon_refuted :
-  exists c w h m, prelogon w /\ apps (trace (run c w h)) = [m] /\ logons (trace (run c w h)) = [].
-Proof. exact initiator_app_before_logon_refuted. Qed.
-Print Assumptions C11_initiator_app_before_logon_refuted.
+(* the R8c gate spelled out: an acceptor between the peer's Logon and its own may send Logon / Logout only *)
+Theorem C11_acceptor_send_gate : forall c m w,
+  st w = ST_LOGON_RECV -> role w <> ROLE_INITIATOR -> mkind m <> KLogon -> mkind m <> KLogout ->
+  send_msg c m w = mkR (inr XConn) w [].
+Proof. exact acceptor_send_gate. Qed.
+Print Assumptions C11_acceptor_send_gate.
 
-(* D15: ... and a ResendRequest makes it ACTIVE without any Logon from the peer *)
-Theorem C11_initiator_active_without_logon_refuted :
-  exists c w h, prelogon w /\ st (final c w h) = ST_ACTIVE /\ logons (trace (run c w h)) = [].
-Proof. exact initiator_active_without_logon_refuted. Qed.
-Print Assumptions C11_initiator_active_without_logon_refuted.
+(* former D15 witness, repaired: initiator, Logon sent, no reply yet, an application message arrives:
+   dropped without Logout, nothing delivered, next_num_in unchanged *)
+Example C11_initiator_app_before_logon_dropped :
+  let t := trace (run cfg0 w_initiator [o_logon; i_app 1]) in
+  let w := final cfg0 w_initiator [o_logon; i_app 1] in
+  apps t = [] /\ logons t = [] /\ length (discs t) = 1%nat /\ map mtype (wires t) = [MT_LOGON]
+  /\ st w = ST_DISC_BROKEN /\ nin w = 1.
+Proof. exact initiator_app_before_logon_dropped. Qed.
+Print Assumptions C11_initiator_app_before_logon_dropped.
 
-(* D25 (new): acceptor, Logon without EncryptMethod: no reply, no on_logon; the next application message is delivered *)
-Theorem C11_acceptor_stuck_logon_refuted :
-  exists c w h m, prelogon w /\ apps (trace (run c w h)) = [m] /\ logons (trace (run c w h)) = []
-                  /\ wires (trace (run c w h)) = [].
-Proof. exact acceptor_stuck_logon_refuted. Qed.
-Print Assumptions C11_acceptor_stuck_logon_refuted.
+(* former D15 witness, repaired: a ResendRequest instead: not served, never ACTIVE *)
+Example C11_initiator_resend_before_logon_dropped :
+  let t := trace (run cfg0 w_initiator [o_logon; i_resend 1 1 0]) in
+  let w := final cfg0 w_initiator [o_logon; i_resend 1 1 0] in
+  logons t = [] /\ map mtype (wires t) = [MT_LOGON] /\ st w = ST_DISC_BROKEN /\ nin w = 1.
+Proof. exact initiator_resend_before_logon_dropped. Qed.
+Print Assumptions C11_initiator_resend_before_logon_dropped.
+
+(* former D25 witness, repaired: acceptor, Logon without EncryptMethod: no reply, no on_logon, LOGON_INITIAL_RECV;
+   an application send is refused without effect; the next application message drops the connection *)
+Example C11_acceptor_stuck_logon_dropped :
+  let w1 := final cfg0 w_acceptor [i_logon_no98 1] in
+  let t := trace (run cfg0 w_acceptor [i_logon_no98 1; i_app 1]) in
+  st w1 = ST_LOGON_RECV
+  /\ step cfg0 (OSend (mkMsg (S "D") [(S "11", S "X")])) w1 = mkR (inr XConn) w1 []
+  /\ apps t = [] /\ logons t = [] /\ wires t = [] /\ length (discs t) = 1%nat
+  /\ st (final cfg0 w_acceptor [i_logon_no98 1; i_app 1]) = ST_DISC_BROKEN.
+Proof. exact acceptor_stuck_logon_dropped. Qed.
+Print Assumptions C11_acceptor_stuck_logon_dropped.
 
 (* D27 is repaired in the code: a non-numeric MsgSeqNum (BeginString and CompIDs correct) is an integrity failure
    with a reason, so C11_integrity_logout applies to it: one Logout(58 = reason), dropped, nothing delivered,
@@ -187,7 +230,6 @@ Print Assumptions C11_garbled_seqnum_logout.
 
 Example C11_nonvacuous :
   prelogon w_acceptor
-  /\ Forall (fun s => ~ D15_step cfg0 s /\ ~ D25_step cfg0 s) (run cfg0 w_acceptor h_session)
   /\ length (apps (trace (run cfg0 w_acceptor h_session))) = 2%nat
   /\ length (discs (trace (run cfg0 w_acceptor h_session))) = 1%nat
   /\ okstate w_acceptor.
